@@ -148,8 +148,8 @@ Pre(s, op, a) ==
     [] op = "dH" -> s.rs.kind # None /\ a.j \in DOMAIN s.rs.items
     \* the user assigns a chemical's heat of formation and refreshes the compiled constants
     [] op = "set_Hf" -> a.i \in Chems
-    [] op = "react" -> /\ s.rs.kind # None /\ Fits(s.rs, s.kind) /\ NonNegT(ApplySet(s.rs, s.kind, s.m))
-                       \* parallel members must not over-draw a shared reactant between them (C05's business)
+    \* a conversion that would make a flow negative (in the phase the reaction names) must be refused (C05): judged below
+    [] op = "react" -> /\ s.rs.kind # None /\ Fits(s.rs, s.kind)
     [] op = "adiabatic" -> /\ s.rs.kind # None /\ Fits(s.rs, s.kind) /\ NonNegT(ApplySet(s.rs, s.kind, s.m))
                            /\ RLt(Zero, CFlow(ApplySet(s.rs, s.kind, s.m)))
     [] OTHER -> FALSE
@@ -171,11 +171,14 @@ Judge(s, e) ==
   LET a == e.a
       u == e.post
       exp == Post(s, e.op, a) IN
-  IF e.obs.exc # None THEN "exception"
+  IF e.obs.exc # None /\ ~(e.op = "react" /\ ~NonNegT(ApplySet(s.rs, s.kind, s.m))) THEN "exception"
   ELSE IF e.op \in {"set_feed", "load", "set_Hf"} THEN (IF u # exp THEN "frame" ELSE "ok")
   ELSE IF e.op = "dH" THEN
        IF u # s THEN "frame"
        ELSE IF ~NearQ(e.obs.dH, RMul(DH(s.hf, s.rs.items[a.j], s.rs.basis), R(Scale)), 1) THEN "dH.value" ELSE "ok"
+  ELSE IF e.op = "react" /\ ~NonNegT(ApplySet(s.rs, s.kind, s.m)) THEN
+       \* C05: whenever the call returns normally no chemical has a negative flow - this conversion must raise
+       (IF e.obs.exc = None THEN "negative_flow_not_rejected" ELSE "ok")
   ELSE \* react / adiabatic
        LET tolv == 2 + Ceil(CFlow(exp.m)) IN       \* the logged temperature is rounded to 1/Scale K
        IF u.m # exp.m THEN "react.material"
@@ -224,7 +227,7 @@ Load == "load" \in Ops /\ rs.kind = None /\ \E k \in {"single", "parallel", "ser
           /\ (k = "single" => i2 = i1 /\ r2 = r1 /\ x2 = x1)
           /\ Act("load", [set |-> [kind |-> k, basis |-> b,
                                   items |-> IF k = "single" THEN <<Item(i1, r1, x1, tg)>> ELSE <<Item(i1, r1, x1, tg), Item(i2, r2, x2, tg)>>]])
-React == "react" \in Ops /\ Act("react", [x |-> 0])
+React == "react" \in Ops /\ rs.kind # None /\ NonNegT(ApplySet(rs, kind, m)) /\ Act("react", [x |-> 0])
 Adiabatic == "adiabatic" \in Ops /\ \E q \in QVals : Act("adiabatic", [Q |-> q])
 SetHf == "set_Hf" \in Ops /\ \E i \in HfChems, v \in HfVals : Act("set_Hf", [i |-> i, v |-> v])
 Warm == "warm" \in Ops /\ \E dd \in DVals : Act("set_feed", [kind |-> kind, m |-> m, d3 |-> dd])
